@@ -190,9 +190,13 @@ func fname(f *ssa.Function) string {
 		pk = f.Object().Pkg().Path()
 	}
 	if recv := f.Signature.Recv(); recv != nil {
-		return pk + ".(" + types.TypeString(recv.Type(), func(*types.Package) string { return "" }) + ")." + f.Name()
+		rs := types.TypeString(recv.Type(), func(*types.Package) string { return "" })
+		if len(aliasType) > 0 && f.Pkg != nil {
+			rs = strings.ReplaceAll(typeStr(recv.Type()), pk+".", "")
+		}
+		return pk + ".(" + rs + ")." + canonFuncName(f)
 	}
-	return pk + "." + f.Name()
+	return pk + "." + canonFuncName(f)
 }
 
 func anonIndex(f *ssa.Function) string {
